@@ -861,4 +861,138 @@ def enumCardTensor (lmax length count : Nat) : List (List Nat) :=
   (((enumBinary lmax).zip (List.range (2 ^ lmax))).filter fun si =>
     decide (si.2 < 2 ^ length) && si.1.foldr (· + ·) 0 == count).map (·.1)
 
+/-! ## The estimator OBJECT (sixth round): attributes, assignments, calls
+
+Every function above models ONE call of a freshly constructed estimator.  In user code an estimator
+is an object that is kept: it is called again, and its documented public attributes (`mc_samples`,
+`func`, `cv`, `cv_mean`, `density`, `self_normalize`, `is_log`, `burn_in`, `initial_sample`,
+`initial_sample_tries`, `proposal`) are assigned between calls.  The pinned constructors store their
+(validated) arguments and nothing derived from them, and `__call__` assigns nothing to `self`: the
+state of the object IS its attribute record.  The model says exactly that: an object is a record, an
+assignment replaces a field, a call is a function of the record as it is at that moment and of the
+draws the call consumes.  (A constructor that stored `-log(mc_samples)` next to `mc_samples` would
+need a record with one more field that assignments do not touch - the pinned code has no such
+field.)
+
+What this cannot see, and what the correspondence checks: that the python `__call__` really reads
+every attribute at call time (the harness constructs each estimator with OTHER attribute values,
+calls it, assigns the attributes and compares the next call with this model run on the same
+history, and with a freshly constructed estimator). -/
+
+section Life
+
+/-- an operation on an estimator object: `est.<attr> = value` (any function on the attribute record
+that the caller composes from field updates) or `est()` with the draws it consumes -/
+inductive EstOp (A D : Type) where
+  | set (upd : A → A)
+  | call (draws : D)
+
+variable {A D R : Type}
+
+/-- one operation.  State: the attribute record, and the results returned so far. -/
+def estStep (call : A → D → R) : A × List R → EstOp A D → A × List R
+  | (a, rs), .set upd => (upd a, rs)
+  | (a, rs), .call d => (a, rs ++ [call a d])
+
+/-- a whole history on an object constructed with the attribute values `a` -/
+def estRun (call : A → D → R) (a : A) (h : List (EstOp A D)) : A × List R :=
+  h.foldl (estStep call) (a, [])
+
+/-- the attribute values in force after a history: the assignments in order (calls change nothing) -/
+def attrsAfter (a : A) : List (EstOp A D) → A
+  | [] => a
+  | .set upd :: h => attrsAfter (upd a) h
+  | .call _ :: h => attrsAfter a h
+
+/-- per call of a history: the attribute values in force at that call, and its draws -/
+def callsAt (a : A) : List (EstOp A D) → List (A × D)
+  | [] => []
+  | .set upd :: h => callsAt (upd a) h
+  | .call d :: h => (a, d) :: callsAt a h
+
+end Life
+
+section LifeEstimators
+variable {α σ : Type} [Zero α] [Add α] [Sub α] [Mul α] [Div α] [NatCast α]
+
+/-- `ImportanceSamplingEstimator.__call__` with the divisor written as the code writes it:
+`llr = lpb - lqb - math.log(self.mc_samples)` - the attribute, not the number of rows of `b` -/
+def isEstimateN (n : Nat) (ss : List (ISSample α)) : Dual α :=
+  Dual.sum (ss.map fun s =>
+    let lqb : LogD α := (LogD.mk s.q).detach
+    let llr : LogD α := ((LogD.mk s.p).sub lqb).subLogConst (n : α)
+    s.f * llr.exp)
+
+/-- what `ImportanceSamplingEstimator.__init__` stores.  A sample point is a `σ`; `func`, `density`
+(`P(b)` behind `density.log_prob`) and `proposal` (`Q(b)` behind `proposal.log_prob`) are what the
+call evaluates at the drawn points. -/
+structure ISAttrs (α σ : Type) where
+  mcSamples : Nat
+  func : σ → Dual α
+  density : σ → Dual α
+  proposal : σ → Dual α
+  selfNormalize : Bool
+  isLog : Bool
+
+/-- `ImportanceSamplingEstimator.__call__` on an object: `b = self.proposal.sample([self.mc_samples])`
+takes the first `mc_samples` draws of the stream.  `none`: the modes the model does not cover
+(`self_normalize`, `is_log`), or fewer draws than `mc_samples`. -/
+def isCall (a : ISAttrs α σ) (draws : List σ) : Option (Dual α) :=
+  if a.selfNormalize || a.isLog then none
+  else if draws.length < a.mcSamples then none
+  else some (isEstimateN a.mcSamples
+    ((draws.take a.mcSamples).map fun b => ⟨a.func b, a.density b, a.proposal b⟩))
+
+/-- the proposal as `DirectEstimator` uses it: `P(b)` with its tangent, and the float value of
+`log P(b)` the implementation computes (it cancels) -/
+structure ProposalD (α σ : Type) where
+  p : σ → Dual α
+  lv : σ → α
+
+/-- what `DirectEstimator.__init__` stores -/
+structure DirectAttrs (α σ : Type) where
+  mcSamples : Nat
+  func : σ → Dual α
+  cv : Option (σ → Dual α)
+  cvMean : Option (Dual α)
+  proposal : ProposalD α σ
+  isLog : Bool
+
+/-- what `DirectEstimator.__call__` sees of a drawn point, given the attributes at call time -/
+def DirectAttrs.sample (a : DirectAttrs α σ) (b : σ) : DirectSample α :=
+  ⟨a.func b, a.cv.map (· b), ⟨a.proposal.lv b, (a.proposal.p b).grad / (a.proposal.p b).val⟩⟩
+
+/-- `DirectEstimator.__call__` on an object (`is_log = False`) -/
+def directCall (a : DirectAttrs α σ) (draws : List σ) : Option (Dual α) :=
+  if a.isLog then none
+  else if draws.length < a.mcSamples then none
+  else some (directEstimate ((draws.take a.mcSamples).map a.sample) a.cvMean)
+
+end LifeEstimators
+
+section LifeIMH
+variable {α σ : Type} [Add α] [Sub α] [Div α] [NatCast α] [LT α] [DecidableLT α]
+
+/-- what `IndependentMetropolisHastingsEstimator.__init__` stores; `density` and `proposal` enter
+the call through `density.log_prob - proposal.log_prob` (`ratio`) and through the support test of
+`find_initial_sample` -/
+structure IMHAttrs (α σ : Type) where
+  mcSamples : Nat
+  burnIn : Nat
+  tries : Nat
+  func : σ → α
+  ratio : σ → α
+  inSupport : σ → Bool
+  init : Option σ
+  isLog : Bool
+
+/-- `IndependentMetropolisHastingsEstimator.__call__` on an object (`is_log = False`): draws of the
+proposal and the logs of the uniform draws.  (`burn_in < mc_samples` is checked by the constructor
+only; after an assignment that breaks it nothing is recorded and the call fails: `none`.) -/
+def imhCall (a : IMHAttrs α σ) (d : List σ × List (Option α)) : Option α :=
+  if a.isLog then none
+  else imhEstimate a.ratio a.func a.inSupport a.mcSamples a.burnIn a.tries a.init d.1 d.2
+
+end LifeIMH
+
 end PdtVerif.Estimators
